@@ -75,7 +75,7 @@ def run(ctx: Ctx) -> None:
                 "values binary floating point mis-truncates) or on/off states, zones 00-0B and DHW; fragment sets fed in random "
                 "order with repeats; non-trivial = a schedule of 7 days; distinct = by schedule / record list")
     ctx.assumptions += ["zlib is not modelled: the theorems take compress/decompress as arbitrary functions satisfying decompress(compress b) = b",
-                        "the 'zone has no schedule' reply (total_frags None) and the shared EMPTY_PAYLOAD_SET list are not modelled"]
+                        "the 'zone has no schedule' reply (total_frags None) is not modelled (the reassembly of fetched fragments, incl. one-fragment sets, is C18's model)"]
     ctx.trusted.append("primitive binary64 operations of the Coq VM (setpoint scaling theorem)")
     built = ctx.build("C17", THEOREMS)
     files = {}
